@@ -1,6 +1,7 @@
 package main
 
 import (
+	"fmt"
 	"go/constant"
 	"go/token"
 	"go/types"
@@ -628,4 +629,87 @@ func unwrapSynthetic(f *ssa.Function) *ssa.Function {
 		f = only
 	}
 	return f
+}
+
+// ---------- pure-expression keys and path feasibility ----------
+
+// pureKey gives a canonical string for side-effect-free expressions over immutable SSA values, so that two
+// syntactically separate evaluations of e.g. `len(val) > 0` are recognised as the same condition.
+func pureKey(v ssa.Value) string {
+	v = resolve(v)
+	switch x := v.(type) {
+	case *ssa.Const:
+		return "const:" + x.String()
+	case *ssa.BinOp:
+		return "(" + pureKey(x.X) + " " + x.Op.String() + " " + pureKey(x.Y) + ")"
+	case *ssa.UnOp:
+		if x.Op == token.NOT {
+			return "!" + pureKey(x.X)
+		}
+	case *ssa.Call:
+		if b, ok := x.Common().Value.(*ssa.Builtin); ok && (b.Name() == "len" || b.Name() == "cap") {
+			return b.Name() + "(" + pureKey(x.Common().Args[0]) + ")"
+		}
+	case *ssa.Convert:
+		return "conv(" + pureKey(x.X) + ")"
+	}
+	return fmt.Sprintf("%p", v)
+}
+
+// condKey returns the canonical key and polarity of the condition on an If edge.
+func condKey(e edge) (string, bool) {
+	iff := ifOf(e.from)
+	want := e.succ == 0
+	c := iff.Cond
+	for {
+		if u, ok := c.(*ssa.UnOp); ok && u.Op == token.NOT {
+			c = u.X
+			want = !want
+			continue
+		}
+		break
+	}
+	return pureKey(c), want
+}
+
+// allPathsPass reports whether every feasible path from the function entry to block x takes one of the edges
+// accepted by good. A path is infeasible if it takes an edge whose pure condition contradicts a condition on an
+// edge that dominates x. When false, a witness path is returned.
+func allPathsPass(x *ssa.BasicBlock, good func(e edge) bool) (bool, []*ssa.BasicBlock) {
+	fn := x.Parent()
+	need := map[string]bool{}
+	for _, b := range fn.Blocks {
+		if ifOf(b) == nil {
+			continue
+		}
+		for s := 0; s < 2; s++ {
+			if edgeDominates(edge{b, s}, x) {
+				k, w := condKey(edge{b, s})
+				need[k] = w
+			}
+		}
+	}
+	found := false
+	var witness []*ssa.BasicBlock
+	ins, path := searchFrom(fn.Blocks[0], 0, searchOpts{
+		bad: func(ins ssa.Instruction) bool { return ins.Block() == x },
+		skipEdge: func(from *ssa.BasicBlock, si int) bool {
+			if ifOf(from) == nil {
+				return false
+			}
+			e := edge{from, si}
+			if good(e) {
+				return true
+			}
+			k, w := condKey(e)
+			if nw, ok := need[k]; ok && nw != w {
+				return true // contradicts a condition that must hold at x
+			}
+			return false
+		},
+	})
+	if ins != nil {
+		found, witness = true, path
+	}
+	return !found, witness
 }
